@@ -38,9 +38,19 @@ struct RunRes {
     tail_rotate_ok: bool,
     tail_first: u32,
     stray: Vec<String>,
+    /// Some(text): after the faults had cleared and one more rotation (with its cleanup pass) had
+    /// completed, more files exist than the cleanup strategy allows
+    limits_exceeded: Option<String>,
 }
 
 fn run_once(case: &Case, sc: &Scratch, tag: &str, faults: &BTreeMap<(String, u64), std::io::ErrorKind>) -> Result<RunRes, (String, String)> {
+    run_once_x(case, sc, tag, faults, false)
+}
+
+/// `slow_cleanup`: a directed schedule for the background cleanup thread (it only changes timing):
+/// its passes are held back until the operation in which a fault fired and one more operation are
+/// done, then they run while the logging thread pauses, then the history continues
+fn run_once_x(case: &Case, sc: &Scratch, tag: &str, faults: &BTreeMap<(String, u64), std::io::ErrorKind>, slow_cleanup: bool) -> Result<RunRes, (String, String)> {
     let cfg = &case.cfg;
     let dir = sc.sub(tag);
     let err = sc.sub(&format!("{tag}.err"));
@@ -51,6 +61,9 @@ fn run_once(case: &Case, sc: &Scratch, tag: &str, faults: &BTreeMap<(String, u64
     {
         let mut ps = hh.points.lock().unwrap();
         ps.faults = faults.iter().map(|(k, v)| (k.clone(), *v)).collect();
+        if slow_cleanup {
+            ps.hold_points.insert("cleanup.thread".to_string());
+        }
     }
     hh.set_mode(if faults.is_empty() { MODE_TRACE } else { MODE_FAULT });
     let sess = Sess::start(cfg, &dir, false, Some(&err), None).map_err(|e| ("start-failed".to_string(), e))?;
@@ -67,8 +80,10 @@ fn run_once(case: &Case, sc: &Scratch, tag: &str, faults: &BTreeMap<(String, u64
         tail_rotate_ok: true,
         tail_first: 0,
         stray: Vec::new(),
+        limits_exceeded: None,
     };
     let err_len = || std::fs::metadata(&err).map(|m| m.len()).unwrap_or(0);
+    let mut ops_since_fault = 0u32;
     let mut initialized = false;
     let mut do_write = |len: usize, q: &mut u32, res: &mut RunRes, initialized: &mut bool| {
         let p = payload(0, *q, len.max(8));
@@ -108,7 +123,18 @@ fn run_once(case: &Case, sc: &Scratch, tag: &str, faults: &BTreeMap<(String, u64
             Op::Advance(ms) => hh.advance(*ms * MS),
             Op::FailWrite(_) => {} // not generated for this property (faults come from its own enumeration)
         }
+        if slow_cleanup {
+            let fired = !hh.points.lock().unwrap().faults_hit.is_empty();
+            if fired {
+                ops_since_fault += 1;
+            }
+            if ops_since_fault == 2 {
+                hh.points.lock().unwrap().hold_points.clear();
+                std::thread::sleep(std::time::Duration::from_millis(25));
+            }
+        }
     }
+    hh.points.lock().unwrap().hold_points.clear();
     // tail without faults: logging and rotation resume without a restart
     if !faults.is_empty() {
         hh.set_mode(MODE_OFF);
@@ -144,6 +170,19 @@ fn run_once(case: &Case, sc: &Scratch, tag: &str, faults: &BTreeMap<(String, u64
         let cleaned = cfg.rot.as_ref().is_some_and(|r| r.cln != Cln::Never);
         if fb.is_none() || (fa.is_some() && fa == fb) || (fa.is_none() && !cleaned) {
             res.tail_rotate_ok = false;
+        }
+    }
+    // recovery of the cleanup: the pass that follows the tail rotation ran without faults, so the
+    // configured limits hold again when shutdown() has returned
+    if let (true, Some((k, m))) = (res.tail_rotate_ok, cfg.rot.as_ref().and_then(|r| r.cln.limits())) {
+        let c = crate::props::c07::counts(cfg, &res.fam);
+        if c.plain_rotated > k || c.gz_rotated > m {
+            res.limits_exceeded = Some(format!(
+                "{} rotated plain files (limit {k}) and {} compressed files (limit {m}); files {:?}",
+                c.plain_rotated,
+                c.gz_rotated,
+                res.fam.iter().map(|f| format!("{}[{}B]", f.name, f.content.len())).collect::<Vec<_>>()
+            ));
         }
     }
     let _ = model;
@@ -204,6 +243,9 @@ fn check_run(case: &Case, res: &RunRes, what: &str) -> Result<(), (String, Strin
             return Err(("failure-not-reported".into(), format!("{what}: the injected failure of {name} (occurrence {occ}) produced no output on the error channel")));
         }
     }
+    if let Some(t) = &res.limits_exceeded {
+        return Err(("limits-not-restored-after-faults".into(), format!("{what}: after the faults had cleared, a further rotation and shutdown(): {t}")));
+    }
     if !res.tail_rotate_ok {
         return Err(("no-recovery-after-faults".into(), format!("{what}: after the faults had cleared, a record, an explicit rotation and another record did not end up in two different files; files {:?}", res.fam.iter().map(|f| format!("{}[{}B]", f.name, f.content.len())).collect::<Vec<_>>())));
     }
@@ -239,9 +281,10 @@ impl Property for P {
     }
     fn strategy(_tier: Tier) -> BoxedStrategy<Case> {
         let modes = prop_oneof![3 => Just(Mode::Direct), 1 => Just(Mode::SupportCapture)].boxed();
-        (crate::mr::rot_cfg_strat(crate::mr::cleanup_strat(), modes), vinst_strat(), any::<u64>())
-            .prop_flat_map(|(mut cfg, t0, burst_seed)| {
+        (crate::mr::rot_cfg_strat(crate::mr::cleanup_strat(), modes), vinst_strat(), any::<u64>(), prop::bool::weighted(0.4))
+            .prop_flat_map(|(mut cfg, t0, burst_seed, bg_cleanup)| {
                 cfg.utc = false;
+                cfg.bg_cleanup = bg_cleanup;
                 let n = cfg.rot.as_ref().and_then(|r| r.crit.size());
                 let ops = crate::hist::ops_strat(n, None, 1, true, 18);
                 (Just(cfg), Just(t0), ops, Just(burst_seed))
@@ -305,9 +348,24 @@ fn run_inner(case: &Case) -> Outcome {
         }
         let mut n = 0u64;
         let mut interesting = false;
+        // Known finding KF-C19-1: with the background cleanup thread, a rotation whose open fails
+        // after its rename leaves the writer on a file that carries a rotated name, and a cleanup
+        // pass may compress or remove it under the writer. Whether that happens in an ordinary
+        // run is up to the OS schedule, so plans with such a fault run with synchronous cleanup
+        // (counted as avoided) and the directed schedule further down covers the region.
+        let rename_style = case.cfg.nam().is_some_and(|n| n.rename_style());
+        let cleans = case.cfg.rot.as_ref().is_some_and(|r| r.cln != Cln::Never);
+        let race_region = case.cfg.bg_cleanup && rename_style && cleans;
+        let mut sync_case = case.clone();
+        sync_case.cfg.bg_cleanup = false;
         for (pi, plan) in plans.iter().enumerate() {
             n += 1;
             let what = format!("faults {:?}", plan.keys().collect::<Vec<_>>());
+            let uncontrolled = race_region && plan.keys().any(|(n, o)| n == "open" && *o >= 1);
+            if uncontrolled {
+                out.avoided.push("background cleanup x failed open after rename, uncontrolled schedule (KF-C19-1)".into());
+            }
+            let case = if uncontrolled { &sync_case } else { case };
             let r = match run_once(case, &sc, &format!("f{pi}"), plan) {
                 Ok(r) => r,
                 Err((sig, msg)) => {
@@ -329,6 +387,30 @@ fn run_inner(case: &Case) -> Outcome {
             }
             if plan.len() > 1 {
                 out.class("burst");
+            }
+        }
+        // directed schedule for the background cleanup thread: a rotation whose open fails after
+        // its rename leaves the writer on a file that already has its rotated name
+        if out.fail.is_none() && race_region {
+            let opens: Vec<&(String, u64)> = hits.iter().filter(|(n, o)| n == "open" && *o >= 1).collect();
+            for (ri, k) in opens.iter().take(2).enumerate() {
+                n += 1;
+                let plan: BTreeMap<(String, u64), std::io::ErrorKind> = [((*k).clone(), std::io::ErrorKind::Other)].into_iter().collect();
+                let what = format!("faults {:?} with the background cleanup passes held back until one operation after the fault", plan.keys().collect::<Vec<_>>());
+                match run_once_x(case, &sc, &format!("r{ri}"), &plan, true) {
+                    Ok(r) => {
+                        if let Err((sig, msg)) = check_run(case, &r, &what) {
+                            out.set_fail(format!("{sig}@open+delayed-background-cleanup"), msg);
+                            break;
+                        }
+                    }
+                    Err((sig, msg)) => {
+                        out.set_fail(sig, format!("{what}: {msg}"));
+                        break;
+                    }
+                }
+                let _ = std::fs::remove_dir_all(sc.sub(&format!("r{ri}")));
+                out.class("fault:open+delayed-background-cleanup");
             }
         }
         out.weight = n.max(1);
